@@ -119,8 +119,10 @@ impl ParsedDirective {
 /// May return [ParseError] if the query is empty, there is no query root, or
 /// the query root is not formatted properly
 fn try_get_query_root(document: &ExecutableDocument) -> Result<&Positioned<Field>, ParseError> {
-    if let Some(v) = document.fragments.values().next() {
-        return Err(ParseError::DocumentContainsNonInlineFragments(v.pos));
+    // `fragments` is a hash map with unspecified iteration order:
+    // report the fragment that comes first in the document itself.
+    if let Some(pos) = document.fragments.values().map(|v| v.pos).min() {
+        return Err(ParseError::DocumentContainsNonInlineFragments(pos));
     }
 
     match &document.operations {
